@@ -46,9 +46,13 @@ class DenseTimeInterpreter(TimeInterpreter):
             e_unit = node.begin_unit
 
         # from the unit of the bound to the default unit
+        # (a bound that is a whole number of default units stays an integer: added to integer
+        # time stamps, e.g. nanoseconds since the epoch, it gives exact stamps beyond 2**53 too)
         try:
-            b = float(b * self.ast.U[b_unit] / self.ast.U[self.ast.unit])
-            e = float(e * self.ast.U[e_unit] / self.ast.U[self.ast.unit])
+            b = b * self.ast.U[b_unit] / self.ast.U[self.ast.unit]
+            e = e * self.ast.U[e_unit] / self.ast.U[self.ast.unit]
+            b = int(b) if b == int(b) else float(b)
+            e = int(e) if e == int(e) else float(e)
         except OverflowError:
             raise RTAMTException('The operator bound is too large for a time stamp')
 
